@@ -15,8 +15,16 @@ Quantification.
   every random label drawn by `NewLabel`, every `a`, `b` (the general
   statements) resp. `a, b ∈ {0,1}` (the property's statement), every string
   `s` of the gadget's length (`k = 32` bits).
+* transport: "every vector length" includes the lengths whose packed vector
+  (`4 + 32·m` bytes) does not fit into one write buffer of the connection
+  (`m ≥ 2048` for the 64 KiB buffer), into two, into the 1 MiB read buffer.
+  The size of the write buffer is a parameter `cap` of the wire model
+  (Model/VoleWire.lean); the theorems hold for every `cap ≥ 4`, i.e. the
+  bytes on the wire and the share relation are the same however `SendData`
+  splits the message into blocks.
 -/
 import MpcVerif.Proofs.Vole
+import MpcVerif.Proofs.VoleWire
 import MpcVerif.Proofs.Fx
 
 namespace Mpc
@@ -186,6 +194,143 @@ example : (runCalls (fun l => l.toNat) (fun i => BitVec.ofNat 128 (1000003 * (i 
     some (16, [(2, 64), (1, 32)]) := by decide +kernel
 
 example : (⟨[2], [1], 3⟩ : Call).Ok := ⟨by decide, by decide, rfl, by decide⟩
+
+/-! ### The wire: framing is independent of the transport buffers -/
+
+/-- `SendData(msg); Flush()` on a connection in ANY state with write buffers
+of ANY size `cap ≥ 4`: the blocks handed to the writer concatenate to what was
+pending, the 4-byte length and the message — whatever the number of blocks —,
+nothing stays pending, and no block exceeds the buffer. -/
+theorem C20_wire_frame (cap : Nat) (hcap : 4 ≤ cap) (c : WConn) (h : c.WF cap) (msg : List UInt8) :
+    (c.sendMsg cap msg).written.flatten = c.stream ++ be32 msg.length ++ msg ∧
+    (c.sendMsg cap msg).pending = [] ∧
+    ∀ b ∈ (c.sendMsg cap msg).written, b.length ≤ cap := by
+  obtain ⟨h1, h2, h3⟩ := sendMsg_spec cap hcap c msg h
+  exact ⟨h1, h2, h3.1⟩
+
+/-- The bytes on the wire do not depend on the size of the write buffer. -/
+theorem C20_wire_buffer_independent (cap₁ cap₂ : Nat) (h1 : 4 ≤ cap₁) (h2 : 4 ≤ cap₂) (msg : List UInt8) :
+    frame cap₁ msg = frame cap₂ msg := by
+  rw [frame_eq cap₁ h1, frame_eq cap₂ h2]
+
+/-- The wire bytes of one call through write buffers of size `cap`: for a
+non-empty vector the length prefix `32·m` and `pack32` of the call's own `ys`
+(receiver to sender) resp. of the `us` the receiver decodes (sender to
+receiver); nothing for the empty vector. -/
+def WireRel (cap : Nat) (c : Vole.Call) (s : Session) : Prop :=
+  ∃ ym um, pack32 c.ys = some ym ∧ pack32 s.us = some um ∧
+    wireOf cap c.ys.length s.ymsg = (if c.ys.length = 0 then [] else be32 (32 * c.ys.length) ++ ym) ∧
+    wireOf cap c.xs.length s.umsg = (if c.xs.length = 0 then [] else be32 (32 * c.xs.length) ++ um)
+
+/-- One call of any length in any state, through write buffers of any size
+`cap ≥ 4`: the share relation holds at EVERY index and the wire bytes are the
+framed packed vectors. -/
+theorem C20_vole_step_wire (prg : BitVec 128 → Nat) (cot : Nat → BitVec 128) (st : St) (c : Vole.Call)
+    (h : c.Ok) (cap : Nat) (hcap : 4 ≤ cap) :
+    ∃ s, mulStep prg cot st c = .ok (⟨st.pos + roundUp8 c.xs.length⟩, s) ∧ ShareRel c s ∧ WireRel cap c s ∧
+      s.ymsg.length = 32 * c.xs.length ∧ s.umsg.length = 32 * c.xs.length := by
+  obtain ⟨s, hs, hrel⟩ := C20_vole_step prg cot st c h
+  obtain ⟨hp0, hp, hly, hy⟩ := h
+  by_cases hm : c.xs.length = 0
+  · have hx : c.xs = [] := List.eq_nil_of_length_eq_zero hm
+    have hys : c.ys = [] := List.eq_nil_of_length_eq_zero (by omega)
+    have hs' : s = ⟨[], [], [], []⟩ := by
+      have : mulStep prg cot st c = .ok (⟨st.pos + roundUp8 c.xs.length⟩, ⟨[], [], [], []⟩) := by
+        simp [mulStep, session, hx, hys]
+      rw [this] at hs
+      injection hs with hs; injection hs with _ hs; exact hs.symm
+    subst hs'
+    exact ⟨_, hs, hrel, ⟨[], [], by simp [hys, pack32], by simp [pack32], by simp [wireOf, hys], by simp [wireOf, hx]⟩,
+      by simp [hx], by simp [hx]⟩
+  · obtain ⟨s', hs', h1, h2, h3, h4, _⟩ := C20_vole_messages prg (callLabels cot st.pos c.xs.length) c.xs c.ys c.p
+      hp0 hp (by omega) hly (callLabels_length _ _ _) hy
+    have hss : s = s' := by
+      have : mulStep prg cot st c = .ok (⟨st.pos + roundUp8 c.xs.length⟩, s') := by simp [mulStep, hs']
+      rw [this] at hs
+      injection hs with hs; injection hs with _ hs; exact hs.symm
+    subst hss
+    refine ⟨_, hs, hrel, ⟨s.ymsg, s.umsg, h1, h2, ?_, ?_⟩, h3, h4⟩
+    · have : c.ys.length ≠ 0 := by omega
+      simp only [wireOf, this, ↓reduceIte]
+      rw [frame_eq cap hcap, h3, hly]
+    · simp only [wireOf, hm, ↓reduceIte]
+      rw [frame_eq cap hcap, h4]
+
+/-- Histories on the wire.  For every write-buffer size `cap ≥ 4`, every
+history of admissible calls of ANY lengths on one pair (a vector of several
+buffer blocks after a short one and vice versa): every call satisfies the
+share relation at every index, and its wire bytes are the length prefix and
+the packed vector of that call — the same bytes for every `cap`. -/
+theorem C20_vole_session_wire (prg : BitVec 128 → Nat) (cot : Nat → BitVec 128) (st : St)
+    (calls : List Vole.Call) (h : ∀ c ∈ calls, c.Ok) (cap : Nat) (hcap : 4 ≤ cap) :
+    ∃ st' ss, runCalls prg cot st calls = .ok (st', ss) ∧
+      Forall2 (fun c s => ShareRel c s ∧ WireRel cap c s) calls ss := by
+  obtain ⟨ss, hs, hr⟩ := runCalls_of_step prg cot (fun c s => ShareRel c s ∧ WireRel cap c s)
+    (fun st c hc => by
+      obtain ⟨s, h1, h2, h3, _⟩ := C20_vole_step_wire prg cot st c hc cap hcap
+      exact ⟨s, h1, h2, h3⟩) calls st h
+  exact ⟨_, ss, hs, hr⟩
+
+/-- Beyond one transport block.  A call whose framed vector does not fit into
+`k` write buffers (`k·cap < 4 + 32·m`) leaves in more than `k` blocks in both
+directions, and still the share relation holds at every index — in particular
+at the indices whose bytes travel in the second and later blocks — and the
+wire bytes are the framed packed vectors. -/
+theorem C20_vole_beyond_blocks (prg : BitVec 128 → Nat) (cot : Nat → BitVec 128) (st : St) (c : Vole.Call)
+    (h : c.Ok) (cap : Nat) (hcap : 4 ≤ cap) (k : Nat) (hbig : k * cap < 4 + 32 * c.xs.length) :
+    ∃ s, mulStep prg cot st c = .ok (⟨st.pos + roundUp8 c.xs.length⟩, s) ∧ ShareRel c s ∧ WireRel cap c s ∧
+      k < (wireBlocks cap s.ymsg).length ∧ k < (wireBlocks cap s.umsg).length := by
+  obtain ⟨s, h1, h2, h3, h4, h5⟩ := C20_vole_step_wire prg cot st c h cap hcap
+  exact ⟨s, h1, h2, h3, wireBlocks_count cap hcap _ k (by omega), wireBlocks_count cap hcap _ k (by omega)⟩
+
+/-- The instance of the code's constants: with the 64 KiB write buffer every
+vector of at least 2048 elements takes at least two blocks, and the relation
+holds at every index `i < m`, the indices `i ≥ 2047` of the later blocks
+included. -/
+theorem C20_vole_beyond_64k (prg : BitVec 128 → Nat) (cot : Nat → BitVec 128) (st : St) (c : Vole.Call)
+    (h : c.Ok) (hm : 2048 ≤ c.xs.length) :
+    ∃ s, mulStep prg cot st c = .ok (⟨st.pos + roundUp8 c.xs.length⟩, s) ∧
+      2 ≤ (wireBlocks 65536 s.ymsg).length ∧ 2 ≤ (wireBlocks 65536 s.umsg).length ∧ WireRel 65536 c s ∧
+      ∀ i, 2047 ≤ i → i < c.xs.length → ∃ r u x y,
+        s.rs[i]? = some r ∧ s.us[i]? = some u ∧ c.xs[i]? = some x ∧ c.ys[i]? = some y ∧
+        (u + c.p - r) % c.p = (x * y) % c.p := by
+  obtain ⟨s, h1, h2, h3, h4, h5⟩ := C20_vole_beyond_blocks prg cot st c h 65536 (by decide) 1 (by omega)
+  refine ⟨s, h1, h4, h5, h3, ?_⟩
+  intro i _ hi
+  obtain ⟨r, u, x, y, a1, a2, a3, a4, _, _, _, a8⟩ := h2.2.2 i hi
+  exact ⟨r, u, x, y, a1, a2, a3, a4, a8⟩
+
+/-! Non-vacuity of the wire theorems. -/
+
+/-- A connection state with pending data satisfies the buffer invariant, and
+the writer really splits: 70 bytes through a 36-byte buffer behind 3 pending
+bytes leave as 36 + 36 + 5 bytes. -/
+example : (⟨[], [1, 2, 3]⟩ : WConn).WF 36 := ⟨by simp, by decide⟩
+
+example : (((⟨[], [1, 2, 3]⟩ : WConn).sendMsg 36 (List.replicate 70 7)).written.map List.length) = [36, 36, 5] := by
+  decide +kernel
+
+/-- The same message through buffers of 36, 40 and 65536 bytes: 3, 2 and 1
+blocks, one byte stream. -/
+example : ((wireBlocks 36 (List.replicate 64 9)).length, (wireBlocks 40 (List.replicate 64 9)).length,
+    (wireBlocks 65536 (List.replicate 64 9)).length) = (2, 2, 1) ∧
+    frame 36 (List.replicate 64 9) = frame 65536 (List.replicate 64 9) := by decide +kernel
+
+/-- A history whose second call is longer than one block of a 36-byte buffer
+(3 elements = 100 framed bytes = 3 blocks) after a one-element call: shares
+and wire bytes as the theorem says. -/
+example : (runCalls (fun l => l.toNat) (fun i => BitVec.ofNat 128 (1000003 * (i + 1))) ⟨0⟩
+    [⟨[2], [1], 3⟩, ⟨[5, 6, 250], [250, 0, 250], 251⟩]).toOption.map
+      (fun r => r.2.map (fun s => (s.us, (wireBlocks 36 s.ymsg).map List.length, (frame 36 s.ymsg).take 5))) =
+    some [([0], [36], [0, 0, 0, 32, 0]), ([166, 190, 210], [36, 36, 28], [0, 0, 0, 96, 0])] := by decide +kernel
+
+/-- Hypotheses of `C20_vole_beyond_64k` / `C20_vole_beyond_blocks` are
+satisfiable: a 2048-element call does not fit one 64 KiB buffer. -/
+example : ∃ c : Vole.Call, c.Ok ∧ 2048 ≤ c.xs.length ∧ 1 * 65536 < 4 + 32 * c.xs.length :=
+  ⟨⟨List.replicate 2048 1, List.replicate 2048 1, 7⟩,
+    ⟨by decide, by decide, by simp only [List.length_replicate],
+      fun y hy => by have := List.eq_of_mem_replicate hy; omega⟩,
+    by dsimp only; rw [List.length_replicate]; omega, by dsimp only; rw [List.length_replicate]; omega⟩
 
 /-! ### Fx, Fxk, ToOT / FromOT -/
 
